@@ -175,7 +175,15 @@ func runC13(s *sim.Sim) {
 	}
 	remotes := u.Peers[:nRemotes]
 	for _, q := range remotes {
-		h.Net().SetConnected(q.ID, true)
+		// who dialed the connection is independent of who opens streams on it:
+		// a peer the node dialed itself can open inbound DHT streams too
+		c := h.Net().SetConnected(q.ID, true)
+		if s.Chance("conn-outbound", 1, 2) {
+			c.SetDirection(network.DirOutbound)
+			s.Count("probe_inbound_stream_on_dialed_conn")
+		} else {
+			c.SetDirection(network.DirInbound)
+		}
 	}
 
 	// The emitter is stateful like AutoNAT's: a DHT constructed after an event
